@@ -28,8 +28,8 @@ Leaf(t, a, v, m) == Node(t, a, v, m, 0, NoE, NoE)
 Un(t, a, v, n, e) == Node(t, a, v, <<>>, n, e, NoE)
 Bin(t, e1, e2) == Node(t, CZero, <<>>, <<>>, 0, e1, e2)
 
-LeafKinds == {"id", "scale", "mat", "mulvec", "zero", "inner", "sq", "const", "shift", "l2sq", "l1", "smul"}
-LinearLeaves == {"id", "scale", "mat", "mulvec", "zero", "inner", "smul"}
+LeafKinds == {"id", "scale", "mat", "mulvec", "zero", "inner", "sq", "const", "shift", "l2sq", "l1", "smul", "swap"}
+LinearLeaves == {"id", "scale", "mat", "mulvec", "zero", "inner", "smul", "swap"}
 IsLeaf(e) == e.t \in LeafKinds
 
 (* -------------------------- typing ------------------------------------- *)
@@ -85,6 +85,7 @@ LeafEval(e, x) ==
     [] e.t = "l2sq"   -> <<WNormSq(x)>>
     [] e.t = "l1"     -> <<WNorm1(x)>>
     [] e.t = "smul"   -> VScal(x[1], e.v)
+    [] e.t = "swap"   -> <<x[2], x[1]>>          \* a user-defined operator (in-place only, not alias-safe)
 
 RECURSIVE Eval(_, _)
 RECURSIVE PowEval(_, _, _)
